@@ -788,6 +788,15 @@ impl VersionSet {
     }
 }
 
+#[cfg(feature = "verif")]
+impl VersionSet {
+    /// Verification hook: behave as a freshly recovered version set that did not reuse its manifest.
+    pub(crate) fn drop_manifest_for_verif(&mut self) {
+        self.maybe_manifest_file = None;
+        self.manifest_file_number = self.get_new_file_number();
+    }
+}
+
 /// Private methods
 impl VersionSet {
     /// Add a new version to the version set.
